@@ -510,7 +510,7 @@ class BinaryProperty(Property):
 class HexProperty(Property):
 
     def clean(self, value, allow_custom=False):
-        if not re.match(r"^([a-fA-F0-9]{2})+$", value):
+        if not re.fullmatch(r"([a-fA-F0-9]{2})+", value):
             raise ValueError("must contain an even number of hexadecimal characters")
         return value, False
 
